@@ -10,7 +10,7 @@ units of 1/4096 (the harness only uses multiples of 1/64 of small magnitude, for
 its exact inverse, see harness/cont_common.py).  A radius is an `Int` in units of 1/64 and is
 compared squared.
 
-The model follows the code after the repairs S3, S20, CS1 (legacy) and S17, S18, S19, CS2 (experimental).
+The model follows the code after the repairs S3, S20, CS1 (legacy), S17, S18, S19, CS2 (experimental) and CS3 (both).
 numpy's `argpartition` is a parameter (`argpart`) of the k-nearest functions; the theorems
 assume only its documented post-condition.
 -/
@@ -36,19 +36,27 @@ def sgn (x : Int) : Int := if x < 0 then -1 else if x = 0 then 0 else 1
 
 def sq (x : Int) : Int := x * x
 
+/-- `np.fmod` / C `fmod` on exact values: the remainder that keeps the sign of the dividend -/
+def fmodI (x s : Int) : Int := if x < 0 then -((-x) % s) else x % s
+
 /-- per-axis separation, as every distance computation of both spaces does it:
-    `d = abs(a - b)`; on a torus `d = min(d, size - d)` -/
+    `d = abs(a - b)`; on a torus `d = d % size; d = min(d, size - d)` (after repair CS3: the separation is reduced
+    modulo the size first, so a point outside the bounds stands for its periodic image) -/
 def axisDist (torus : Bool) (size a b : Int) : Int :=
   let d := iabs (a - b)
-  if torus then min d (size - d) else d
+  if torus then
+    let m := d % size
+    min m (size - m)
+  else d
 
-/-- per-axis heading from `a` to `b`: `h = b - a`; on a torus the one of `h` and
-    `h - sign(h)*size` with the smaller absolute value (on a tie the second) -/
+/-- per-axis heading from `a` to `b`: `h = b - a`; on a torus `h = fmod(h, size)` (repair CS3), then the one of `h`
+    and `h - sign(h)*size` with the smaller absolute value (on a tie the second) -/
 def axisHeading (torus : Bool) (size a b : Int) : Int :=
   let h := b - a
   if torus then
-    let inv := h - sgn h * size
-    if iabs h < iabs inv then h else inv
+    let h' := fmodI h size
+    let inv := h' - sgn h' * size
+    if iabs h' < iabs inv then h' else inv
   else h
 
 def upd {β : Type} (f : Nat → β) (k : Nat) (v : β) : Nat → β := fun x => if x = k then v else f x
@@ -526,6 +534,25 @@ def kNearestV (argpart : List Int → Nat → List Nat) (s : ESpace) (pt : Pos) 
 /-- `in_bounds(p)` / `torus_correct(p)` -/
 def inBoundsV (s : ESpace) (p : Pos) : Except Err Bool := (bcast s.nd p).map (inBounds s.cfg.dims)
 def torusCorrectV (s : ESpace) (p : Pos) : Except Err Pos := (bcast s.nd p).map (torusCorrect s.cfg.dims)
+
+/-! ### histories whose calls carry vectors of any length (what the driver runs line by line) -/
+
+/-- what numpy makes of the vector of a call on a space with `nd` axes: the call with the broadcast vector, or no call at
+    all (`ValueError` before anything is written) -/
+def normOp (nd : Nat) : EOp → Option EOp
+  | .set a p => match bcast nd p with | .ok q => some (.set a q) | .error _ => none
+  | .iadd a v => match bcast nd v with | .ok w => some (.iadd a w) | .error _ => none
+  | .raw i p => match bcast nd p with | .ok q => some (.raw i q) | .error _ => none
+  | op => some op
+
+/-- one call with a vector of any length, as the code runs it (`agentSetV` / `agentIaddV` / `rawWriteV`) -/
+def estepV (s : ESpace) : EOp → ESpace
+  | .set a p => match agentSetV s a p with | .ok s' => s' | .error _ => s
+  | .iadd a v => match agentIaddV s a v with | .ok s' => s' | .error _ => s
+  | .raw i p => match rawWriteV s i p with | .ok s' => s' | .error _ => s
+  | op => estep s op
+
+def erunV (c : ECfg) (cap : Nat) (ops : List EOp) : ESpace := ops.foldl estepV (einit c cap)
 
 /-! ### references to `space.agent_positions` kept by the user
 `agent_positions` is re-sliced from `_agent_positions` by every add / remove, and `_agent_positions` is re-allocated
